@@ -367,8 +367,16 @@ func leavesOf(v ssa.Value) []ssa.Value {
 				}
 				if al != nil {
 					n := 0
+					// a nil / zero constant is not a source of data: when the variable also receives
+					// computed values (error paths reset it to nil), only those are its origins
+					nonZero := 0
 					for _, st := range storesTo(al) {
-						if k, ok := st.Val.(*ssa.Const); ok && k.Value == nil && !isNilable(k.Type()) {
+						if k, ok := st.Val.(*ssa.Const); !ok || k.Value != nil {
+							nonZero++
+						}
+					}
+					for _, st := range storesTo(al) {
+						if k, ok := st.Val.(*ssa.Const); ok && k.Value == nil && (!isNilable(k.Type()) || nonZero > 0) {
 							continue
 						}
 						n++
